@@ -81,6 +81,7 @@ def run(ctx: Ctx) -> None:
     decimal_adjust(ctx, rows, ok_cases)
     counted_bodies(ctx, rows, ok_cases)
     carry_chain(ctx, rows, ok_cases)
+    explicit_carry(ctx, rows, ok_cases)
 
 
 # ---------------------------------------------------------------------------
@@ -294,8 +295,12 @@ def loops(ctx: Ctx, py: PyProgram, rows: dict, cases: list) -> None:
         if r.cls in COUNTED and c.selector in (None, 0x04, 0x24, 0x84):
             n += 1
             dec = any(t.ctor == "set_reg" and t.args[1] == "I" and isinstance(t.args[2], Term) and t.args[2].ctor == "sub" and ilfacts.value_of(t.args[2].args[2]) == 1 for st in c.il_terms for t in ilfacts.walk(st))
-            tests = [t for st in c.il_terms for t in ilfacts.walk(st) if t.ctor == "if_expr" and isinstance(t.args[0], Term) and t.args[0].ctor == "compare_equal" and repr(t.args[0].args[1]) == "reg(2, 'I')" and ilfacts.value_of(t.args[0].args[2]) == 0]
-            if not dec or len(tests) < 2:
+            lb = _loop_body(c.il_terms)
+            # the loop is entered through a test on I placed before the loop label (I = 0 moves nothing)
+            guarded = lb is not None and any(
+                isinstance(st, Term) and st.ctor == "if_expr" and any(x.ctor == "reg" and repr(x.args[1]) == "'I'" for x in ilfacts.walk(st.args[0]))
+                for st in c.il_terms[:lb[0]])
+            if not dec or lb is None or not guarded:
                 ctx.violation("C04.5/lift-loop", key_of(isa.INSTR_PY, f"opcode 0x{c.opcode:02X} {r.cls}", "loop shape"), f"{r.cls}: loop does not (test I==0, body, I-=1, test I==0)", f"{isa.OPTABLE}:{r.ln}", il=c.il[:6])
     ctx.instance("C04.5/lift-loop", "counted classes use lift_loop; IL loop shape test/decrement/test", n, 20)
 
@@ -669,12 +674,19 @@ def decimal_adjust(ctx: Ctx, rows: dict, cases: list) -> None:
 
 
 def _loop_body(il: list) -> tuple[int, int] | None:
-    """(first, last) statement indices of the I-counted loop body: after LABEL(body) up to the back-edge test."""
-    tests = [i for i, st in enumerate(il) if isinstance(st, Term) and st.ctor == "if_expr" and isinstance(st.args[0], Term)
-             and st.args[0].ctor == "compare_equal" and repr(st.args[0].args[1]) == "reg(2, 'I')" and ilfacts.value_of(st.args[0].args[2]) == 0]
-    if len(tests) < 2:
-        return None
-    return tests[0] + 2, tests[-1]
+    """(first, last) statement indices of the counted loop body: from the statement after the label that a later
+    conditional branch jumps back to, up to that branch (the back edge).  Found by shape, not by how the
+    branch condition is spelled."""
+    labels = {repr(st.args[0]): i for i, st in enumerate(il) if isinstance(st, Term) and st.ctor == "LABEL"}
+    best = None
+    for j, st in enumerate(il):
+        if not (isinstance(st, Term) and st.ctor == "if_expr"):
+            continue
+        for tgt in st.args[1:3]:
+            i = labels.get(repr(tgt))
+            if i is not None and i < j and (best is None or j - i > best[1] - best[0]):
+                best = (i + 1, j)
+    return best
 
 
 def counted_bodies(ctx: Ctx, rows: dict, cases: list, prefix: str = "C04.10") -> None:
@@ -766,3 +778,82 @@ def carry_chain(ctx: Ctx, rows: dict, cases: list) -> None:
                       f"{cls} (opcodes {[hex(o) for o in ops[:8]]}): the flag-setting {op} takes `operand + C` computed at the same width as its second input; "
                       f"with operand = all ones and C = 1 that sum wraps to 0 and the carry/borrow out is lost", f"{isa.OPTABLE}:{r.ln}", il=cs[0].il[:3])
     ctx.instance("C04.11/carry-chain", "flag-setting add/sub terms inspected for a same-width `x + C` operand", n, 150)
+
+
+def _entry_form(il: list) -> tuple[dict, dict] | None:
+    """Straight-line IL rewritten over the register values at instruction entry: every register read is replaced by the
+    expression last assigned to it (or left as the entry value).  Returns (final register expressions, flag expressions);
+    None when the IL branches."""
+    env: dict[str, Any] = {}
+    flags: dict[str, Any] = {}
+
+    def sub(t: Any) -> Any:
+        if isinstance(t, Term):
+            if t.ctor == "reg":
+                k = repr(t.args[1])
+                return env.get(k, Term("entry", (t.args[1],), {}))
+            return Term(t.ctor, tuple(sub(a) for a in t.args), dict(t.kwargs))
+        return t
+    for st in il:
+        if not isinstance(st, Term):
+            continue
+        if st.ctor in ("LABEL", "if_expr", "goto", "jump", "call", "ret"):
+            return None
+        if st.ctor == "set_reg":
+            env[repr(st.args[1])] = sub(st.args[2])
+        elif st.ctor == "set_flag":
+            flags[str(st.args[0])] = sub(st.args[1])
+    return env, flags
+
+
+def _strip_mask(t: Any) -> tuple[Any, int | None]:
+    """and_expr(w, X, const m) [nested, same m] -> (X, m)"""
+    m = None
+    while isinstance(t, Term) and t.ctor == "and_expr" and isinstance(ilfacts.value_of(t.args[2]), int):
+        m = ilfacts.value_of(t.args[2])
+        t = t.args[1]
+    return t, m
+
+
+def explicit_carry(ctx: Ctx, rows: dict, cases: list) -> None:
+    """Where an add/subtract computes C by an explicit comparison (the 20-bit register pairs): with the destination
+    D = (A - B) & m, C must be the borrow of the *entry* operands, B >u A (or A <u B); with D = (A + B) & m, C must be
+    the carry out of the masked sum, (A + B) >u m (or D <u A / D <u B).  Anything comparing against a value that was
+    already overwritten computes the flag of a different subtraction."""
+    n = 0
+    groups: dict[tuple, list] = collections.defaultdict(list)
+    for c in cases:
+        r = rows[c.opcode]
+        if r.cls not in ("ADD", "SUB", "ADC", "SBC"):
+            continue
+        if not any(isinstance(t, Term) and t.ctor == "set_flag" and str(t.args[0]) == "C" for t in c.il_terms):
+            continue
+        ef = _entry_form(c.il_terms)
+        ctx.need(ef is not None, f"opcode 0x{c.opcode:02X}: explicit carry in branching IL is outside the evaluable fragment")
+        env, flags = ef
+        dests = [v for k, v in env.items() if "TEMP" not in k]
+        ctx.need(len(dests) == 1, f"opcode 0x{c.opcode:02X}: explicit-carry arithmetic writes {len(dests)} architectural registers")
+        core, m = _strip_mask(dests[0])
+        ctx.need(isinstance(core, Term) and core.ctor in ("add", "sub") and m is not None,
+                 f"opcode 0x{c.opcode:02X}: destination of explicit-carry arithmetic is not a masked add/sub: {repr(dests[0])[:120]}")
+        a, b = core.args[1], core.args[2]
+        cexp = flags["C"]
+        n += 1
+        ok = False
+        if isinstance(cexp, Term) and cexp.ctor in ("compare_unsigned_greater_than", "compare_unsigned_less_than"):
+            x, y = cexp.args[1], cexp.args[2]
+            if cexp.ctor == "compare_unsigned_less_than":
+                x, y = y, x          # now: x >u y
+            if core.ctor == "sub":
+                ok = (x == b and y == a)
+            else:
+                ok = (x == core and ilfacts.value_of(y) == m) or (y == dests[0] and x in (a, b)) or (_strip_mask(y)[0] == core and _strip_mask(y)[1] == m and x in (a, b))
+        if not ok:
+            want = "B >u A over the entry operands" if core.ctor == "sub" else "(A + B) >u mask"
+            groups[(c.opcode, f"C is not {want}")].append((c, repr(cexp)))
+    for (op, what), cs in sorted(groups.items()):
+        r = rows[op]
+        ctx.violation("C04.12/explicit-carry", key_of(isa.INSTR_PY, f"opcode 0x{op:02X} {r.cls}", what),
+                      f"opcode 0x{op:02X} ({r.name}): {what}: over the values at instruction entry C is `{cs[0][1][:260]}` ({len(cs)} cases)",
+                      f"{isa.OPTABLE}:{r.ln}", il=cs[0][0].il[:8])
+    ctx.instance("C04.12/explicit-carry", "add/subtract encodings computing C by explicit comparison: borrow/carry of the entry operands", n, 100)
